@@ -367,3 +367,29 @@ mod wrap {
         }
     }
 }
+
+// ---------------------------------------------------------------- codec fallbacks (counterexample generators; BOUNDED input shapes)
+mod codec {
+    use crate::helpers::is_in_range;
+    use crate::types::R;
+    fn noop_barrier<T: ?Sized>(_v: &T) {}
+
+    /// is_in_range on one-hot vectors: every position, value and non-negative (lo, hi)
+    #[kani::proof]
+    #[kani::unwind(260)]
+    #[kani::stub(zeroize::optimization_barrier, noop_barrier)]
+    fn k_is_in_range_onehot() {
+        let i: usize = kani::any();
+        kani::assume(i < 256);
+        let e: i32 = kani::any();
+        let lo: i32 = kani::any();
+        let hi: i32 = kani::any();
+        kani::assume(lo >= 0 && hi >= 0 && lo < 1_048_576 && hi < 1_048_576 && lo + hi >= 1);
+        kani::assume(e > -2_000_000 && e < 2_000_000);
+        let mut w = R([0i32; 256]);
+        w.0[i] = e;
+        let got = is_in_range(&w, lo, hi);
+        core::mem::forget(w);
+        assert!(got == (e >= -lo && e <= hi));
+    }
+}
